@@ -4,6 +4,7 @@ from ..terms import TermBuilder
 from .. import codec
 
 NEED_DEPS = True
+USES_QUERIES = True
 EXPLANATION = (
     "CODEC rule over the resolved MIR: the encoder's case->(CBOR kind, tag) table is extracted from the per-arm value of "
     "`<Envelope as CBORTaggedEncodable>::untagged_cbor` (following tagged_cbor/untagged_cbor/Into<CBOR> into the dcbor and "
@@ -13,11 +14,11 @@ EXPLANATION = (
     "C05.2: assertion writer inserts exactly untagged(predicate)->untagged(object); reader builds Assertion::new(decode(key), "
     "decode(value)). C05.3: node writer emits [untagged(subject)] ++ untagged(assertions) in stored order; reader decodes "
     "element 0 as subject and the tail 1.. in order. C05.4: decoder accept values are constructor calls (digests recomputed). C05.5: the assertion-or-obscured predicate with which the decoder validates assertion slots has the expected table (Assertion / node over assertion; elided | encrypted | compressed subject), so everything the constructors can put into a slot is read back. C05.6: the writer's image lies in the reader's domain: every node the constructors build is non-empty, element-valid and without equal assertion digests (the C04.1/C04.3/C04.4 instances re-evaluated), because the reader refuses anything else. "
-    "C05.7: every public decode entry point (TryFrom<CBOR>, try_from_cbor, try_from_cbor_data) is the tag-checking decoder applied exactly once to the value. Does not decide dCBOR's own canonical round-trip of leaf values, nor the UR text codec.")
+    "C05.7: every public decode entry point (TryFrom<CBOR>, try_from_cbor, try_from_cbor_data) is the tag-checking decoder applied exactly once to the value. C05.8: no refusal of the decoder's own inside the arm of a known tag value. Does not decide dCBOR's own canonical round-trip of leaf values, nor the UR text codec.")
 TRUSTED = ['dcbor: CBOR::to_tagged_value builds Tagged(tag, item); Map iterates in key order; CBOR::try_from_data accepts only dCBOR',
            'shape of dependency encoders is re-derived from the dcbor / bc-components MIR on every run']
 ALIASES = {('Tagged', 24): 'Leaf'}   # deprecated leaf tag #6.24 read as #6.201 (named in the property)
-FLOORS = {'C05.1': 8, 'C05.2': 2, 'C05.3': 2, 'C05.5': 2, 'C05.6': 10, 'C05.7': 3}
+FLOORS = {'C05.1': 8, 'C05.2': 2, 'C05.3': 2, 'C05.5': 2, 'C05.6': 10, 'C05.7': 3, 'C05.8': 1}
 
 
 def check(ctx):
@@ -170,3 +171,37 @@ def check(ctx):
     # (an entry point that peels tags itself can return the content of a wrapped envelope instead of the wrapped envelope)
     from . import C06
     C06.check_entry_points(ctx, 'C05.7')
+    # C05.8: the reader refuses nothing the writer can emit under a tag it knows: inside the arm of a known tag value the decoder has no
+    # refusal of its own (an explicit Err exit) - only the `?` of the payload decoders and of the checked constructors, whose conditions
+    # the writers enforce too (has_digest). A size / ratio / depth / content test added to one arm makes some encodable envelopes
+    # undecodable.
+    dec = codec.decoder_table(ctx)
+    if dec is None:
+        ctx.lost('C05.8', 'decoder tables')
+    else:
+        b, tb = dec['body'], dec['tb']
+        tagv = find_terms(b, tb, lambda x: x[0] == 'call' and call_name(x) == 'value' and contains(x, lambda y: isinstance(y, tuple) and y and y[0] == 'vfield' and y[2] == 'Tagged'))
+        cased = find_terms(b, tb, lambda x: x[0] == 'discr' and m_call(x[1], name='as_case') is not None)
+        known = set()
+        for sb, dt in switch_on(tb, b, lambda d: tagv and strip_sites(d) == tagv[0]):
+            known |= {v for v, _bb in b.term(sb)['targets']}
+        errs = [(bi, si, t) for bi, si, t in ret_defs(tb) if t[0] == 'agg' and t[2] == 'Err']
+        if len(tagv) != 1 or not known or len(cased) != 1:
+            ctx.lost('C05.8', 'tag dispatch of the decoder')
+        else:
+            bad = []
+            for v in sorted(known):
+                env = {tagv[0]: v}
+                R = reach_under(b, tb, env)
+                for bi, si, t in errs:
+                    if bi in R:
+                        # reachable under this tag value: is it reachable ONLY via the tag arm (i.e. not from the other CBOR cases)?
+                        R_other = reach_under(b, tb, {tagv[0]: -1})
+                        if bi not in R_other:
+                            bad.append((v, bi, si))
+            for v, bi, si in bad[:4]:
+                ctx.fail('C05.8', ctx.site(b, bi, si), 'the decoder refuses on a condition of its own inside the arm of known tag %s: some envelopes the writer emits under that tag do not decode' % v,
+                         key='C05.8|tag|%s' % v)
+            if not bad:
+                ctx.ok('C05.8', ctx.site(b), 'no refusal of the decoder\'s own inside the arms of the %d known tag values (only `?` of payload decoders / checked constructors)' % len(known),
+                       sample=str(sorted(known)))
